@@ -109,6 +109,7 @@ typedef struct kack_s {
   int opidx;         /* index of the op in the history */
   int vid0;          /* first value id of the batch */
   int sync;
+  int empty;         /* an empty batch: no marker, nothing to survive */
   int status;        /* what ldb_write returned */
   int j_begin, j_end;/* journal indices when the call began / returned */
   long c_begin, c_end; /* VFS call counters likewise */
